@@ -34,6 +34,7 @@ type solverProc struct {
 	Unknown int
 	Dur     time.Duration
 	log     *strings.Builder // script of the current run (for cross-checking)
+	started bool
 }
 
 func solverCommand(name string) []string {
@@ -85,12 +86,20 @@ func (s *solverProc) send(x string) {
 	}
 }
 
+// reset starts a fresh assertion context for a run. Declarations and
+// assertions of a run live inside one push scope, which is cheaper than
+// (reset) for thousands of short runs.
 func (s *solverProc) reset() {
-	s.send("(reset)")
-	if s.name == "cvc5" {
-		s.send("(set-logic ALL)")
+	if !s.started {
+		s.started = true
+		if s.name == "cvc5" {
+			s.send("(set-logic ALL)")
+		}
+		s.send("(set-option :produce-models true)")
+	} else {
+		s.send("(pop 1)")
 	}
-	s.send("(set-option :produce-models true)")
+	s.send("(push 1)")
 }
 
 func (s *solverProc) readLine() string {
